@@ -132,7 +132,7 @@ func (p *Path) TreePrefix() string {
 				return p.parent.TreePrefix() + p.relativePath + "/"
 			}
 		case p.relativePath != "":
-			return p.relativePath + "/"
+			return rootTreePrefix(p.relativePath)
 		default:
 			// We never found a name for this tree (e.g., it is only
 			// reachable via an annotated tag), so use its OID:
@@ -151,6 +151,32 @@ func (p *Path) TreePrefix() string {
 	default:
 		return "???"
 	}
+}
+
+// rootTreePrefix returns the prefix for the entries of a tree that was
+// named `name` by a reference or on the command line. If `name`
+// already has the form `<rev>:<path>` (using the same rule as Git:
+// the first ':' outside of braces), then further path components are
+// appended to the path; otherwise `name` is a tree-ish like
+// `main^{tree}`, a reference, or an OID, and the path starts after a
+// ':'.
+func rootTreePrefix(name string) string {
+	depth := 0
+	for i := 0; i < len(name); i++ {
+		switch c := name[i]; {
+		case c == '{':
+			depth++
+		case c == '}' && depth > 0:
+			depth--
+		case c == ':' && depth == 0 && i > 0:
+			if i == len(name)-1 {
+				// `<rev>:` is the top-level tree of `<rev>`.
+				return name
+			}
+			return name + "/"
+		}
+	}
+	return name + ":"
 }
 
 // Return a human-readable path for this object if we can do better
